@@ -54,8 +54,15 @@ fn selfcheck(runs: u64) -> i32 {
         return 2;
     }
     let seed = coord::seed_from_env();
-    println!("selfcheck: VERIF_SEED={seed}, {runs} run indices per property, 3 partitions x 2 repetitions");
     let mut bad = 0;
+    println!("selfcheck: stub runtime and oracle self-tests (hand-written programs)");
+    for (name, ok, detail) in c16::selftests() {
+        println!("  {} {name}: {detail}", if ok { "ok  " } else { "FAIL" });
+        if !ok {
+            bad += 1;
+        }
+    }
+    println!("selfcheck: VERIF_SEED={seed}, {runs} run indices per property, 3 partitions x 2 repetitions");
     for prop in ["C15", "C20", "C16"] {
         let mut reference: Option<std::collections::BTreeMap<u64, u64>> = None;
         let mut executions = 0;
